@@ -120,4 +120,36 @@ def run(ctx, rep, g):
                 for c in unread:
                     r.finding("%s.%s|unread" % (inst, c), where, "the action reads %s of `%s` but never its component `%s`: that part of the source is dropped" % (sorted(read), name, c))
             else:
-                r.ok(inst, where, "all components read")
+                # read somewhere - but on every way through the action?  (`match x.0 { A => f(x.1), B => g() }` drops x.1 for B)
+                partial = []
+                if b.f["dk"] == "Closure":
+                    bl, bp = base
+                    for cname, cty in comps:
+                        if cty == SPAN or cname not in read:
+                            continue
+                        blocks = set()
+                        for bb, k, p in b.place_uses():
+                            if k in ("write", "drop"):
+                                continue
+                            for cand in (p, b.root(p)):
+                                if cand[0] != bl:
+                                    continue
+                                proj = [x for x in cand[1] if x != "*"]
+                                bproj = [x for x in bp if x != "*"]
+                                if [str(x) for x in proj[:len(bproj)]] != [str(x) for x in bproj]:
+                                    continue
+                                rest = [x for x in proj[len(bproj):] if isinstance(x, list) and x[0] == "f"]
+                                if (rest and rest[0][2] == cname) or not rest:
+                                    blocks.add(bb)
+                        if not blocks:
+                            continue
+                        # a normal return reachable from the entry without passing a block that reads the component
+                        free = b.reachable(0, avoid=tuple(blocks))
+                        rets = [x for x in free if b.term(x)[0] == "ret" and not b.is_cleanup(x)]
+                        if 0 not in blocks and rets and not placeholder_component(ctx, g, rule, name, ty, cname):
+                            partial.append(cname)
+                if partial:
+                    for c in partial:
+                        r.finding("%s.%s|unread-on-a-path" % (inst, c), where, "the action reads component `%s` of `%s` on some of its paths only: on the others that part of the source is dropped" % (c, name))
+                else:
+                    r.ok(inst, where, "all components read")
